@@ -659,6 +659,11 @@ class World:
                 else:
                     pos[[r for r in rows if r < len(pos)]] += sh
                 self.atoms.positions = pos
+            if ed.get("fresh_calculator"):
+                # the user attaches a fresh calculator of the same kind (a new instance that never evaluated anything)
+                self.calc = calcs.make_calc(self.calc_spec)
+                self.atoms.calc = self.calc
+                self.result.count("fault.fresh_calculator_between_runs")
             if "constraints" in ed:
                 spec = dict(self.sc["atoms"], constraints=ed["constraints"])
                 self.atoms.set_constraint(build_atoms(spec).constraints if ed["constraints"] else None)
